@@ -17,6 +17,9 @@ use std::panic::{catch_unwind, AssertUnwindSafe};
 mod more;
 #[path = "c17_unproved.rs"]
 mod unproved;
+// D16b: mDNS wire format, modelled (sub-stream `mdns2`)
+#[path = "c17_mdns.rs"]
+mod mdns2;
 
 /// where the last panic happened (recorded by the hook installed in `install_hook`)
 pub static LAST_PANIC: std::sync::Mutex<String> = std::sync::Mutex::new(String::new());
@@ -532,6 +535,7 @@ pub fn run_op(kind: &str, op: &str) -> String {
         "plainhdr" => plain::run(op),
         "protohdr" => protoh::run(op),
         "status" => status::run(op),
+        "mdns2" => mdns2::run(op), // D16b
         k => {
             if let Some(r) = more::run_op(k, op) {
                 r
@@ -981,6 +985,7 @@ pub fn gen(a: &Args) -> String {
     }
     more::gen(&mut r, &mut out, a.thorough, &mut id);
     unproved::gen(&mut r, &mut out, a.thorough, &mut id);
+    mdns2::gen(&mut r, &mut out, a.thorough, &mut id); // D16b
     out.finish()
 }
 
